@@ -70,6 +70,7 @@ type Machine struct {
 	mergeLoops bool
 	deadline time.Time
 	inPerAlt bool
+	liftGuard *Term
 	extern  map[string]externFn
 	varSeq  map[string]int
 	now     time.Time
@@ -277,7 +278,7 @@ func (m *Machine) perAlternative(fn *ssa.Function, args []value, env []value, si
 		return nil, false
 	}
 	switch fn.Pkg.Pkg.Path() {
-	case "github.com/6tail/lunar-go/LunarUtil", "github.com/6tail/lunar-go/FotoUtil", "github.com/6tail/lunar-go/TaoUtil":
+	case "github.com/6tail/lunar-go/LunarUtil", "github.com/6tail/lunar-go/FotoUtil", "github.com/6tail/lunar-go/TaoUtil", "github.com/6tail/lunar-go/HolidayUtil":
 	default:
 		if fn.Name() != "convertJieQi" {
 			return nil, false
@@ -328,8 +329,30 @@ func (m *Machine) perAlternative(fn *ssa.Function, args []value, env []value, si
 		}
 	}()
 	m.inPerAlt = true
-	r := m.liftStr(args, func(conc []value) value {
+	type altPanic struct {
+		g *Term
+		p targetPanic
+	}
+	var pans []altPanic
+	type ptrAlt struct {
+		g *Term
+		p *value
+	}
+	var ptrs []ptrAlt
+	r := m.liftStr(args, func(conc []value) (out value) {
 		before := len(m.trail)
+		g := m.liftGuard
+		defer func() {
+			if rr := recover(); rr != nil {
+				if tp, isTP := rr.(targetPanic); isTP {
+					// the callee panics on this alternative: becomes a forked panic path if the alternative is feasible
+					pans = append(pans, altPanic{g, tp})
+					out = altSkip{}
+					return
+				}
+				panic(rr)
+			}
+		}()
 		v := m.callFn(fn, conc, env, site)
 		if len(m.trail) != before {
 			// writes are only tolerated to objects the callee allocated itself; be conservative
@@ -339,12 +362,67 @@ func (m *Machine) perAlternative(fn *ssa.Function, args []value, env []value, si
 				}
 			}
 		}
-		switch v.(type) {
+		switch p := v.(type) {
 		case int64, string, bool:
 			return v
+		case *value:
+			// nil or a freshly built object (e.g. *Holiday): merged structurally below
+			ptrs = append(ptrs, ptrAlt{g, p})
+			return altSkip{}
 		}
 		panic(perAltAbort{})
 	})
+	m.inPerAlt = false
+	if len(ptrs) > 0 {
+		if _, none := r.(altSkip); !none {
+			panic(perAltAbort{})
+		}
+		for _, ap := range pans {
+			if m.decide(ap.g) {
+				panic(ap.p)
+			}
+		}
+		var nilG, gs []*Term
+		var vals []value
+		for _, pa := range ptrs {
+			if pa.p == nil {
+				nilG = append(nilG, pa.g)
+			} else {
+				gs = append(gs, pa.g)
+				vals = append(vals, pa.p)
+			}
+		}
+		if len(vals) == 0 {
+			return (*value)(nil), true
+		}
+		if len(nilG) > 0 && m.decide(m.tb.Or(nilG...)) {
+			return (*value)(nil), true
+		}
+		if len(nilG) == 0 {
+			m.assume(m.simp(m.tb.Or(gs...)))
+		}
+		mg := &merger{m: m, memo: map[string]value{}, trustFresh: true}
+		for range vals {
+			mg.overlays = append(mg.overlays, map[*value]value{})
+		}
+		defer func() {
+			if rr := recover(); rr != nil {
+				if _, isMF := rr.(mergeFail); isMF {
+					panic(unsupported("per-alternative results could not be merged"))
+				}
+				panic(rr)
+			}
+		}()
+		return mg.merge(gs, vals), true
+	}
+	for _, ap := range pans {
+		if m.decide(ap.g) {
+			panic(ap.p)
+		}
+	}
+	if _, none := r.(altSkip); none {
+		panic(pathAbort{"no feasible non-panicking alternative"})
+	}
 	return r, true
 }
 
@@ -740,7 +818,7 @@ func (m *Machine) iteVal(g *Term, a, b value) value {
 		case string, *SymStr:
 			return m.iteStr(g, a, b)
 		}
-	case float64, *FRat, *FTab:
+	case float64, *FRat, *FTab, FUnknown:
 		return m.iteFloat(g, a, b)
 	}
 	panic(mergeFail{fmt.Sprintf("cannot ite %T / %T", a, b)})
